@@ -83,6 +83,10 @@ class SemgrepResultSet(ResultSet):
 
         result_set = cls()
         for sarif_run in data["runs"]:
+            # a SARIF file may carry runs of several tools: skip the runs that
+            # name another tool (runs that name no tool are read as before)
+            if "tool" in sarif_run and not SemgrepSarifToolDetector.detect(sarif_run):
+                continue
             for result in sarif_run["results"]:
                 sarif_result = SemgrepResult.from_sarif(
                     result, sarif_run, truncate_rule_id
